@@ -141,6 +141,13 @@ def examine(case):
     src = tmpl.format(Q=QNAMES[cls], v=vsrc)
     case["recipe"] = src
     obj = ns.ev(src)
+    if case["pos"] not in DDL_POSITIONS and struct_hash([case["pos"], cls, vsrc])[0] in "01234567":
+        # in half of the cases the statement has already been rendered for a parameter collector (where the value is
+        # taken out of the text): the literal written afterwards must be the same one
+        try:
+            obj.get_sql(parameter=ns.QmarkParameter())
+        except Exception:
+            pass
     text = str(obj)
     isstr = isinstance(v, str)
     res.nontrivial = isstr and any(ch in v for ch in "'\"`\\-/*#;\n")
